@@ -638,8 +638,17 @@ mod ir_builder {
                 = "()" _ { IrAstConstValue::Unit }
                 / "true" _ { IrAstConstValue::Bool(true) }
                 / "false" _ { IrAstConstValue::Bool(false) }
-                / "0x" s:$(hex_digit()*<64>) _ {
+                / "0x" s:$(hex_digit()*<64>) !hex_digit() _ {
                     IrAstConstValue::Hex256(string_to_hex::<32>(s))
+                }
+                // Raw untyped slice constants (`const slice 0x...`) are printed as a hex
+                // string of an arbitrary (even) number of digits.
+                / "0x" s:$((hex_digit() hex_digit())*) _ {
+                    IrAstConstValue::HexBytes(
+                        (0..s.len() / 2)
+                            .map(|i| u8::from_str_radix(&s[2 * i..2 * i + 2], 16).unwrap())
+                            .collect(),
+                    )
                 }
                 / n:decimal() { IrAstConstValue::Number(n) }
                 / string_const()
@@ -984,6 +993,7 @@ mod ir_builder {
         Unit,
         Bool(bool),
         Hex256([u8; 32]),
+        HexBytes(Vec<u8>),
         Number(u64),
         String(Vec<u8>),
         Array(IrAstTy, Vec<IrAstConst>),
@@ -1019,8 +1029,10 @@ mod ir_builder {
                         let value = B256::from_be_bytes(bs);
                         ConstantValue::B256(value)
                     }
+                    IrAstTy::Slice => ConstantValue::RawUntypedSlice(bs.to_vec()),
                     _ => unreachable!("invalid type for hex number"),
                 },
+                IrAstConstValue::HexBytes(bytes) => ConstantValue::RawUntypedSlice(bytes.clone()),
                 IrAstConstValue::Number(n) => ConstantValue::Uint(*n),
                 IrAstConstValue::String(bs) => ConstantValue::String(bs.clone()),
                 IrAstConstValue::Array(el_ty, els) => {
@@ -1070,8 +1082,16 @@ mod ir_builder {
                         ConstantContent::get_uint256(context, n)
                     }
                     IrAstTy::B256 => ConstantContent::get_b256(context, *bs),
+                    IrAstTy::Slice => {
+                        let slice_const = self.as_constant(context, val_ty);
+                        Value::new_constant(context, slice_const)
+                    }
                     _ => unreachable!("invalid type for hex number"),
                 },
+                IrAstConstValue::HexBytes(_) => {
+                    let slice_const = self.as_constant(context, val_ty);
+                    Value::new_constant(context, slice_const)
+                }
                 IrAstConstValue::Number(n) => match val_ty {
                     IrAstTy::U8 => ConstantContent::get_uint(context, 8, *n),
                     IrAstTy::U64 => ConstantContent::get_uint(context, 64, *n),
